@@ -412,6 +412,8 @@ class Gen:
         for k in range(nst):
             if force and k == 0:
                 self.forced_statement(P, force)
+                if force.startswith("rt:"):
+                    break
                 continue
             sh = rng.choice([("vec", 2), ("vec", 3), ("vec", 3), ("mat", 2, 2), ("mat", 2, 3), ("mat", 3, 3),
                              ("st", 1), ("st", 2), ("st", 3), ("t", 1), ("t", 2)])
@@ -505,13 +507,60 @@ class Gen:
             P.operands += [v1, v2]
             P.kinds |= {"view:row", "view:col"}
             P.stmts.append(("%s = %s + 2 * %s;" % (a1, a1, a2), v1, "=", ("add", ("leaf", v1), ("smul", ("c", Fraction(2)), ("leaf", v2)))))
+        elif what.startswith("rt:"):
+            self.runtime_statement(P, what[3:])
         else:
             raise ValueError(what)
         P.ops.add(what)
 
+    def runtime_statement(self, P, family):
+        """containers with a reduced operator set (only what they offer): element-wise statements, aliasing included"""
+        rng = self.rng
+        n = rng.randint(2, 4)
+        if family == "matrix":
+            r, c = rng.randint(2, 3), rng.randint(2, 3)
+            n = r * c
+            mk = lambda: self.new_storage(P, "matrix<Sym> %%(n)s(%d, %d);" % (r, c), n,
+                                          "c17::fill2(%%(n)s, \"%%(n)s\", %d, %d);" % (r, c),
+                                          "c17::out2(\"%%(n)s\", %%(n)s, %d, %d);" % (r, c))
+        else:
+            decl = {"vector": "vector<Sym> %%(n)s(%d);", "runtime_array": "runtime_array<Sym> %%(n)s(%d);",
+                    "fsarray": "fsarray<%d, Sym> %%(n)s;"}[family] % n
+            mk = lambda: self.new_storage(P, decl, n, "verif::fill_inputs(%%(n)s, \"%%(n)s\", %d);" % n,
+                                          "c17::out1(\"%%(n)s\", %%(n)s, %d);" % n)
+        objs = []
+        for _ in range(2):
+            name = mk()
+            o = Operand(name, ("arr", family, n), [(name, k) for k in range(n)], True, "owned")
+            o.storage = name
+            objs.append(o)
+        P.kinds.add("owned:" + family)
+        a, b = objs
+        s, ts = self.scalar(P, divisor=True)
+        forms = {
+            "vector": [("%s = %s + %s * %s;" % (a.cxx, a.cxx, s, b.cxx), "=", ("add", ("leaf", a), ("smul", ts, ("leaf", b)))),
+                       ("%s += %s;" % (a.cxx, b.cxx), "+=", ("leaf", b)),
+                       ("%s += %s + %s;" % (a.cxx, a.cxx, b.cxx), "+=", ("add", ("leaf", a), ("leaf", b))),
+                       ("%s /= %s;" % (a.cxx, s), "/=", ts)],
+            "matrix": [("%s += %s;" % (a.cxx, b.cxx), "+=", ("leaf", b)),
+                       ("%s -= %s;" % (a.cxx, b.cxx), "-=", ("leaf", b)),
+                       ("%s += %s;" % (a.cxx, a.cxx), "+=", ("leaf", a)),
+                       ("%s *= %s;" % (a.cxx, s), "*=", ts)],
+            "runtime_array": [("%s = %s + %s;" % (a.cxx, a.cxx, b.cxx), "=", ("add", ("leaf", a), ("leaf", b))),
+                              ("%s += %s;" % (a.cxx, b.cxx), "+=", ("leaf", b)),
+                              ("%s -= %s + %s;" % (a.cxx, a.cxx, b.cxx), "-=", ("add", ("leaf", a), ("leaf", b))),
+                              ("%s *= %s;" % (a.cxx, s), "*=", ts)],
+            "fsarray": [("%s = %s + %s;" % (a.cxx, b.cxx, a.cxx), "=", ("add", ("leaf", b), ("leaf", a))),
+                        ("%s += %s;" % (a.cxx, a.cxx), "+=", ("leaf", a)),
+                        ("%s -= %s;" % (a.cxx, b.cxx), "-=", ("leaf", b)),
+                        ("%s *= %s;" % (a.cxx, s), "*=", ts)],
+        }[family]
+        for cxx, op, t in rng.sample(forms, 2):
+            P.stmts.append((cxx, a, op, t))
+
 
 FORCED = ["a=a+b", "a+=2*a", "s=deviator(s)", "v=m*v", "v=v*m", "m=m*n", "t=transpose(t)", "view=f(storage)",
-          "shifted-overlap", "row=row+col"]
+          "shifted-overlap", "row=row+col", "rt:vector", "rt:matrix", "rt:runtime_array", "rt:fsarray"]
 
 
 # ------------------------------------------------------------------ eager semantics
@@ -665,6 +714,10 @@ CXX_HEAD = """// GENERATED by checks/c17gen.py (seeded) — C17 (b) traced progr
 #include "TFEL/Math/tmatrix.hxx"
 #include "TFEL/Math/stensor.hxx"
 #include "TFEL/Math/tensor.hxx"
+#include "TFEL/Math/fsarray.hxx"
+#include "TFEL/Math/vector.hxx"
+#include "TFEL/Math/matrix.hxx"
+#include "TFEL/Math/runtime_array.hxx"
 #include "TFEL/Math/Array/View.hxx"
 #include "TFEL/Math/Array/ViewsArray.hxx"
 #include "TFEL/Math/Array/CoalescedView.hxx"
